@@ -639,6 +639,23 @@ SLOTS.update({
 })
 del SLOTS[('Global', 'none')]
 _PCX = [('body', 0), ('cases', 0), ('pattern', None)]
+_AT = [('body', 0), ('target', None)]
+# bases inside an annotated-assignment target (`(x)[b].c: int` is a SyntaxError: parentheses that are kept force the WHOLE target to
+# be parenthesised, however many Attribute / Subscript levels lie between the edited base and the AnnAssign)
+SLOTS.update({
+    ('Subscript', 'value@AnnAssign-target'): ('a[b]: int', _AT + [('value', None)]),
+    ('Subscript', 'value@AnnAssign-target.attr'): ('a[b].c: int', _AT + [('value', None), ('value', None)]),
+    ('Subscript', 'value@AnnAssign-target.attr-chain'): ('self.m[k].v: T = z', _AT + [('value', None), ('value', None)]),
+    ('Subscript', 'value@AnnAssign-target[][]'): ('a[b][c]: int = 1', _AT + [('value', None), ('value', None)]),
+    ('Subscript', 'value@AnnAssign-target[].attr[]'): ('a[b].c[d]: int', _AT + [('value', None), ('value', None), ('value', None)]),
+    ('Attribute', 'value@AnnAssign-target'): ('a.b: int', _AT + [('value', None)]),
+    ('Attribute', 'value@AnnAssign-target[]'): ('a.b[c]: int = 1', _AT + [('value', None), ('value', None)]),
+    ('Attribute', 'value@AnnAssign-target.attr'): ('a.b.c: int', _AT + [('value', None), ('value', None)]),
+    ('Attribute', 'value@AnnAssign-target[].attr'): ('a.b[c].d: int', _AT + [('value', None), ('value', None), ('value', None)]),
+    ('comprehension', 'ifs@first'): ('x = [a for b in c if d if e]', V + [('generators', 0), ('ifs', 0)]),
+    ('comprehension', 'ifs@sole-gen'): ('x = (a for b in c if d)', V + [('generators', 0), ('ifs', 0)]),
+    ('comprehension', 'ifs@dict-first-of-two-gens'): ('x = {k: v for k in c if d for v in e if f}', V + [('generators', 0), ('ifs', 0)]),
+})
 # expressions INSIDE patterns (dotted names, mapping keys, class names): they cannot carry grouping parentheses of their own
 SLOTS.update({
     ('Attribute', 'value@MatchValue'): ('match s:\n    case a.b:\n        pass', _PCX + [('value', None), ('value', None)]),
